@@ -28,7 +28,7 @@ EXTENDS Integers, Sequences, FiniteSets, TLC, Json, DispatchTables
 CONSTANTS MaxMsgs, Concurrency, ScriptKinds   \* ScriptKinds: the message kinds scripts are built from
 
 VARIABLES script,  \* the client's messages, in send order (sequence of kinds)
-          pc,      \* pc[i] \in {"new", "pre", "want", "cs", "run", "done"} for message i
+          pc,      \* pc[i] \in {"new", "pre", "want", "cs", "post", "run", "done"} for message i
           owner    \* index of the invocation holding requestMutex, 0 = free
 
 vars == <<script, pc, owner>>
@@ -36,7 +36,8 @@ vars == <<script, pc, owner>>
 N == Len(script)
 Idx == 1..N
 Kind(i) == script[i]
-Active(i) == pc[i] \in {"pre", "want", "cs", "run"}
+Active(i) == pc[i] \in {"pre", "want", "cs", "run", "post"}
+HasBare(k) == \E a \in Acc[k] : a.bare
 Running == {i \in Idx : Active(i)}
 
 Init == /\ script \in UNION {[1..n -> ScriptKinds] : n \in 1..MaxMsgs}
@@ -48,9 +49,9 @@ Admit(i) ==
     /\ pc[i] = "new"
     /\ \A j \in 1..(i-1) : pc[j] # "new" /\ (IsNtf[Kind(j)] => pc[j] = "done")
     /\ Cardinality(Running) < Concurrency
-    /\ pc' = [pc EXCEPT ![i] = CASE Lock[Kind(i)] \in {"full", "callee"} -> "want"
-                                 [] Lock[Kind(i)] = "tail" -> "pre"
-                                 [] OTHER -> "run"]
+    /\ pc' = [pc EXCEPT ![i] = IF Lock[Kind(i)] = "none" THEN "run"
+                               ELSE IF HasBare(Kind(i)) THEN "pre"     \* accesses outside the critical section
+                               ELSE "want"]
     /\ UNCHANGED <<script, owner>>
 
 \* the bare prefix of a handler that locks late is over
@@ -59,8 +60,10 @@ PreDone(i) == /\ pc[i] = "pre" /\ pc' = [pc EXCEPT ![i] = "want"] /\ UNCHANGED <
 Acquire(i) == /\ pc[i] = "want" /\ owner = 0
               /\ pc' = [pc EXCEPT ![i] = "cs"] /\ owner' = i /\ UNCHANGED script
 
-Finish(i) == /\ pc[i] \in {"cs", "run"}
-             /\ pc' = [pc EXCEPT ![i] = "done"]
+\* leaving the critical section: a handler that also touches shared state outside it (before taking the mutex or after
+\* releasing it explicitly) runs a bare epilogue
+Finish(i) == /\ pc[i] \in {"cs", "run", "post"}
+             /\ pc' = [pc EXCEPT ![i] = IF pc[i] = "cs" /\ HasBare(Kind(i)) THEN "post" ELSE "done"]
              /\ owner' = IF owner = i THEN 0 ELSE owner
              /\ UNCHANGED script
 
@@ -85,7 +88,7 @@ Terminates == <>[]AllDone
 (* Races: the accesses an invocation may be performing in its current phase *)
 
 AccNow(i) ==
-    CASE pc[i] = "pre" -> {a \in Acc[Kind(i)] : a.bare}
+    CASE pc[i] \in {"pre", "post"} -> {a \in Acc[Kind(i)] : a.bare}
       [] pc[i] = "cs"  -> {a \in Acc[Kind(i)] : ~a.bare}
       [] pc[i] = "run" -> Acc[Kind(i)]
       [] OTHER         -> {}
